@@ -8,6 +8,7 @@ INVARIANT TypeOK
 INVARIANT GrammarAgree
 INVARIANT Balanced
 INVARIANT CompletionOK
+INVARIANT DeadStaysDead
 INVARIANT ValueOK
 INVARIANT EmitInv
 CHECK_DEADLOCK FALSE
